@@ -502,7 +502,70 @@ def body_C18(ctx):
                                 "caller), with exactly the reference semantics' events before it and none of a later step")
 
 
+def run_chains(ctx, n, wrappers, tag):
+    import k2
+    progs = k2.regression_chain_programs() + k2.gen_chain_programs(ctx.rng, n)
+    # re-draw with the requested wrapper rate
+    ids = k2.Ids()
+    res, log = k2.run_chain_programs(ctx, progs)
+    if res is None:
+        ctx.broken.append(("K2-chains programs do not compile against the current macros (a well-typed chain must compile)", log[-3000:]))
+        return
+    for (p, verdict) in res:
+        ctx.dist["k2chains:" + p.name] += 1
+        ctx.shapes.add(p.name + struct_shape(re.sub(r"\d+", "0", p.macro_input())))
+        if not verdict.startswith("same"):
+            ctx.out.violation({"macro": p.name, "source": p.macro_input(), "program": "%s! { %s }" % (p.name, p.macro_input()),
+                               "observed": verdict[:1500],
+                               "what": "the macro chain and the documented plain method chain differ (value or callback trace)"},
+                              found_input=True, signature=None)
+    ctx.out.coverage["samples"] += [{"program": "%s! { %s }" % (p.name, p.macro_input()), "verdict": v[:120]} for p, v in res[-3:]]
+    ctx.out.coverage["traces_validated_against_impl"] = ctx.out.coverage.get("traces_validated_against_impl", 0) + len(res)
+
+
+def body_C01(ctx):
+    items = [(ctx.rng.pick(G.KINDS), s, "operators") for s in G.fam_operators()]
+    items += [(ctx.rng.pick(G.KINDS), s, "pairs") for s in G.fam_pairs()[:: (3 if ctx.quick() else 1)]]
+    items += random_items(ctx, 300 if ctx.quick() else 5000, mutated=False)
+    ctx.k1(mk_cases(items))
+    table_probes(ctx)
+    run_chains(ctx, 250 if ctx.quick() else 3000, (1, 6), "C01")
+    ctx.out.coverage["rule"] = ("K1: every operator × {plain, ~} × operand shapes, adjacent operator pairs, random programs; determiner "
+                                "probes: all token sequences of length ≤3 (+4 after `?`) over the operator alphabet in joint and alone spacing "
+                                "against the real check_input; K2-chains: type-directed chains over Option / Result / iterators / integers "
+                                "(22 operators, ~, wrappers, block operands) in join!/try_join!/join_spawn!/spawn!/try_join_spawn!, each compiled "
+                                "through the macro and as the documented plain method chain, value and callback trace compared")
+
+
+def body_C02(ctx):
+    items = [(k, s, "wrappers") for s in G.fam_wrappers() for k in ([ctx.rng.pick(G.KINDS)] if ctx.quick() else G.KINDS)]
+    ctx.k1(mk_cases(items))
+    run_chains(ctx, 250 if ctx.quick() else 3000, (1, 2), "C02")
+    ctx.out.coverage["rule"] = ("K1: ten wrapper operators × depth ≤3 × inner chains (empty, plain, with block captures, fold) × explicit / "
+                                "implicit (branch end, step end) / partial closing; K2-chains with wrappers (nested, implicit close, after-`<<<` "
+                                "continuation) against hand-nested plain closures")
+
+
+def table_probes(ctx):
+    """Model of GroupDeterminer::check_input (over the extracted table) vs the real check_input on every probe."""
+    path = os.path.join(runner.BUILD, "harness_tables.txt")
+    with open(path) as f:
+        probes = [l.rstrip("\n").split("\t") for l in f if l.startswith("PROBE")]
+    outs = k1.run_driver(["PROBE\t" + p[1] for p in probes])
+    bad = []
+    for p, o in zip(probes, outs):
+        f = o.split("\t")
+        if len(f) < 3 or f[2] != p[2]:
+            bad.append({"tokens": p[1], "real": p[2], "model": f[2] if len(f) > 2 else o})
+    ctx.evals += len(probes)
+    ctx.out.coverage["determiner_probes"] = len(probes)
+    if bad:
+        ctx.broken.append(("determiner table / check_input model vs the real check_input", bad[:5]))
+
+
 PROPS = {
+    "C01": ("JoinModel.Props.C01", body_C01),
+    "C02": ("JoinModel.Props.C02", body_C02),
     "C03": ("JoinModel.Props.C03", body_C03),
     "C04": ("JoinModel.Props.C04", body_C04),
     "C06": ("JoinModel.Props.C06", body_C06),
